@@ -267,8 +267,13 @@ def l2_phase(ctx, exe, rng, nmods):
                 want = e
                 if conv == "bool":
                     want = "1" if e not in ("0", "FAIL") else e
-                elif conv == "try_into" and e.lstrip("-").isdigit() and int(e) >= 100:
-                    want = "-999999"
+                elif conv == "try_into" and e.lstrip("-").isdigit():
+                    iv = int(e)
+                    if iv >= 2 ** 127:          # convtypes::TryTy goes through `as i128`
+                        iv -= 2 ** 128
+                    want = "-999999" if iv >= 100 else str(iv)
+                elif conv == "into" and e.lstrip("-").isdigit() and int(e) >= 2 ** 127:
+                    want = str(int(e) - 2 ** 128)
                 if g != want:
                     diffs.append((cid, q, g, want))
                 sample = sample or {"definition": mods[cid][:300], "query": list(q[:4]), "compiled": g, "model": want}
